@@ -48,6 +48,19 @@ CHECKS = {
    note=NOTE_COMMON+" empymod.bipole is an uninterpreted function (arguments matched syntactically after a sound normalisation of inverse pairs/reciprocals); the ellipse geometry is replaced by an arbitrary mask; grids <= 3x3 horizontal cells; exact rational widths in (B).",
    technique="symbolic execution of the real extraction/layered code with path exploration over a nondeterministic selection mask and a symbolic NaN pattern; uninterpreted 1D modeller; SMT validity (NRA with reciprocal variables, UF axioms) per path; replay against real empymod",
    ref="DESIGN.md §6 C19"),
+ 'C16': dict(
+   text="One-direction core, bounded: the real meshes.origin_and_widths and meshes._stretch (the routine construct_mesh calls per direction) are "
+        "executed path by path with the grid centre, the survey domain or distances, the minimum cell width, both wavelengths and the maximum "
+        "buffer as symbolic reals; skin_depth/cell_width/wavelength (float power laws) are stubs returning those symbols; the stretching pair "
+        "and the cell-number list are concrete and small (every comparison of the search forks: 2000-3000 paths per case). On every path that "
+        "returns a mesh z3 decides (linear real arithmetic): cell count in the permitted list, all widths > 0, the mesh covers the survey domain "
+        "plus the wavelength-based buffer capped by max_buffer (both buffer definitions), neighbouring widths within the larger stretching "
+        "factor (to rounding of alpha**k), centre on a node / cell centre as requested. vector, seasurface, realistic stretching pairs and "
+        "cell-number lists, estimate_gridding_opts, construct_mesh routing and the completeness of the search (error only if no mesh exists) "
+        "are outside the claim.",
+   note=NOTE_COMMON+" Bounds: stretching pairs with <= 4 candidates (1.0..1.004), cell numbers subsets of {4,6,8}; the survey domain contains the centre; exact reals for the code's comparisons.",
+   technique="symbolic execution of the real gridding search with forking comparisons (decision-prefix exploration) over symbolic reals; SMT validity (LRA) of the postconditions per returned path; replay on the real function with inputs reconstructed from the model",
+   ref="DESIGN.md §6 C16"),
  'C14': dict(
    text="Symbolic proof for all real values: the six Map* classes, VolumeModel and Model's validation are executed on z3 terms with "
         "exp/ln/log10/10**x as uninterpreted functions constrained by their inverse-pair axioms; z3 decides backward(forward(s)) = s, "
@@ -207,7 +220,6 @@ CHECKS = {
 
 NA = {
  'C06': "convergence factors of full cycles on 8^3..64^3 grids are floating-point magnitudes; no symbolic encoding within reach of z3/cvc5 (DESIGN §7)",
- 'C16': "float power-law search (alpha**n, ceil, log): symbolic exponentiation; reals-for-floats unsound at the ceil/< decision points (DESIGN §7)",
  'C18': "finite list of documented keys x whole-program runs through configparser/regex/file I/O; not a solver problem (DESIGN §7)",
 }
 PENDING = "check not built yet in this round (planned, see DESIGN.md §6); listed here until its harness lands"
